@@ -23,7 +23,13 @@ RULE = ("structures: random consistent Atoms (1–8 atoms quick / –12 thorough
         "re-assigned or edited in place between the writes, on the object itself, on its copy(), on a re-read of the last "
         "file, on a subset a[idx] and on Atoms.from_ase_atoms of its ASE image; every write is judged by the same independent "
         "reader against the object's tables at that moment, and an edited copy must leave the original unchanged. "
-        "Non-trivial = distinct (structure, style) with at least one term or one coefficient/label comment; every history.")
+        "Also: atom-less structures that keep their type tables; labels and coefficient comments with any number of '#'; "
+        "non-ASCII letters; magnitudes up to 1e10 (tolerance = half a printed unit + the double's ulp); tilt factors beyond "
+        "half a box length; constructor calls without charges/groups; pathlib.Path targets; for structures with >= 2 atom "
+        "types the written file with its Masses lines PERMUTED must read as the same structure (ids bind, not positions); "
+        "the repo's own CML / P1-CIF test files and element-string constructor calls written and read back. "
+        "Non-trivial = distinct (structure, style) with at least one term or one coefficient/label comment; every history, "
+        "every permuted file, every foreign object.")
 
 PREC = Fraction(1, 2000000) + Fraction(1, 10 ** 9)       # half a unit of the printed precision (+ float slack)
 STYLES = ["full", "atomic"]
@@ -31,9 +37,9 @@ STYLES = ["full", "atomic"]
 # ------------------------------------------------------------------------------------------ generators
 
 TOKENS = ["harmonic", "1.5", "-0.25", "cos/periodic", "1e-3", "k=3", "0", "12", "a_b", "Atoms", "xlo", "(x)", "0.000000",
-          "-0.000000", "Coeffs", "3.50", "+1", "lj/cut", "xhi", "types"]
+          "-0.000000", "Coeffs", "3.50", "+1", "lj/cut", "xhi", "types", "Å", "µ=3", "θ0"]
 SEPS = [" ", " ", "  ", "\t", "   ", " \t "]
-WORDS = ["C", "H", "C_R", "stretch", "1", "x-y", "Zr1", "note", "Pair", "Masses"]
+WORDS = ["C", "H", "C_R", "stretch", "1", "x-y", "Zr1", "note", "Pair", "Masses", "#", "#2", "a#b", "Cα", "é"]
 
 
 def rand_number(rng, lo, hi, mode=None):
@@ -47,13 +53,16 @@ def rand_number(rng, lo, hi, mode=None):
         x = float("%.11f" % rng.uniform(lo, hi))
     elif mode == "tie":                      # k/128 with k odd: the 7th decimal is an exact 5 (printf rounds to even)
         x = (2 * rng.randint(int(lo * 64), int(hi * 64) - 1) + 1) / 128.0
+    elif mode == "big":                      # many orders of magnitude (the double's ulp reaches the printed precision)
+        x = rng.choice([-1, 1]) * float("%.7f" % (rng.uniform(1, 10) * 10 ** rng.randint(2, 9)))
     else:                                    # rounds to (minus) zero
         x = rng.choice([-1, 1]) * rng.choice([1e-8, 4.9e-7, 3e-12])
     return core.q(x)
 
 
 def rand_coeff(rng):
-    """an arbitrary coefficient string: blank-separated tokens and at most one trailing comment"""
+    """an arbitrary coefficient string: blank-separated tokens and at most one trailing comment (which may itself
+    contain further '#': the comment starts at the first one)"""
     toks = [rng.choice(TOKENS) for _ in range(rng.randint(0, 4))]
     s = rng.choice(["", "", " ", "\t"]) if toks else ""
     for i, t in enumerate(toks):
@@ -68,7 +77,8 @@ def rand_coeff(rng):
 
 
 def rand_label(rng, el, i):
-    return rng.choice([el, el, "%s_%d" % (el, i + 1), "%s %d" % (el, i + 1), "%s  (sp2)" % el, "t%d" % i, "", "Atoms"])
+    return rng.choice([el, el, "%s_%d" % (el, i + 1), "%s %d" % (el, i + 1), "%s  (sp2)" % el, "t%d" % i, "", "Atoms",
+                       "%s#%d" % (el, i + 1), "#%s" % el, "%s # sp2 #" % el, "%sα" % el])
 
 
 def rand_lmp_atoms(rng, nmax=8, cell_kind=None):
@@ -106,11 +116,20 @@ def rand_lmp_atoms(rng, nmax=8, cell_kind=None):
                 for c in range(r + 1):
                     if j["cell"][r][c] != "0":
                         j["cell"][r][c] = core.q(float(core.unq(j["cell"][r][c])) + rng.uniform(-0.3, 0.3))
-    mode = rng.choice([None, None, "grid64", "micro", "long"])
+        if ck in ("tri+", "tri-") and rng.random() < 0.15:   # a tilt factor beyond half the box length
+            j["cell"][1][0] = core.q(float(core.unq(j["cell"][0][0])) * rng.choice([-1, 1]) * rng.choice([0.5, 0.75, 0.9375]))
+    mode = rng.choice([None, None, None, "grid64", "micro", "long", "big"])
+    omit = rng.random() < 0.08               # charges and groups not passed to the constructor at all
     for r in j["atoms"]:
         r["pos"] = [rand_number(rng, -3, 14, mode) for _ in range(3)]
-        r["q"] = rand_number(rng, -2, 2, mode)
-        r["g"] = rng.choice([0, 0, 1, 2, 5, -1, -3])
+        r["q"] = "0" if omit else rand_number(rng, -2, 2, None if mode == "big" else mode)
+        r["g"] = 0 if omit else rng.choice([0, 0, 1, 2, 5, -1, -3])
+    if omit:
+        j["build"] = {"omit_charges_groups": True}
+    if rng.random() < 0.06 and cell_kind is None:        # an atom-less structure that keeps its type tables
+        j["atoms"] = []
+        j["terms"] = {k: [] for k in gen.KINDS}
+        j["xlabels"] = {k: [] for k in ["atom"] + gen.KINDS}
     nt = len(j["types"]["elem"])
     M = gen.masses()
     els = j["types"]["elem"]
@@ -156,6 +175,29 @@ def rand_lmp_atoms(rng, nmax=8, cell_kind=None):
     return j, ck
 
 
+def build(aj):
+    """a real Atoms from canonical JSON: core.atoms_from_json, extended to atom-less structures WITH their type tables
+    and to constructor calls that omit charges / groups"""
+    import numpy as np
+    from mofun import Atoms
+    if aj["atoms"] and not aj.get("build"):
+        return core.atoms_from_json(aj)
+    ty = aj["types"]
+    kw = dict(atom_type_elements=list(ty["elem"]), atom_type_labels=list(ty["label"]),
+              atom_type_masses=[float(core.unq(m)) for m in ty["mass"]], pair_coeffs=list(ty["pair"]))
+    for k, tups, types, xf, xlab, coeffs in core.KINDS:
+        kw[coeffs] = list(ty[k])
+        kw[tups] = [t["a"] for t in aj["terms"][k]]
+        kw[types] = [t["ty"] for t in aj["terms"][k]]
+    if aj["atoms"]:
+        kw["atom_types"] = [r["ty"] for r in aj["atoms"]]
+        kw["positions"] = [[float(core.unq(v)) for v in r["pos"]] for r in aj["atoms"]]
+    if aj.get("cell") is not None:
+        kw["cell"] = np.array([[float(core.unq(v)) for v in row] for row in aj["cell"]])
+    with core.quiet():
+        return Atoms(**kw)
+
+
 def signature(j, ck):
     return "n%d/%s/%s" % (len(j["atoms"]), "".join(k[0] for k in gen.KINDS if j["terms"].get(k)) or "-", ck)
 
@@ -185,7 +227,7 @@ def attempt(fn):
 def real_save(aj, style):
     def f():
         s = io.StringIO()
-        core.atoms_from_json(aj).save_lmpdat(s, atom_format=style)
+        build(aj).save_lmpdat(s, atom_format=style)
         return s.getvalue()
     return attempt(f)
 
@@ -309,7 +351,9 @@ def words(s):
 
 
 def near(a, b):
-    return abs(Fraction(a) - Fraction(b)) <= PREC
+    """equal to the printed precision (half a unit of the sixth decimal; for large magnitudes plus the double's ulp)"""
+    b = Fraction(b)
+    return abs(Fraction(a) - b) <= PREC + abs(b) / 2 ** 51
 
 
 def lammps_oriented(cell):
@@ -477,12 +521,15 @@ def oracle_case(aj, style, tmpdir=None):
     if tmpdir is not None:
         from mofun import Atoms
         p = os.path.join(tmpdir, "s.lmpdat")
+        if len(aj["atoms"]) % 2:
+            import pathlib
+            p = pathlib.Path(p)
         try:
             with core.quiet():
-                core.atoms_from_json(aj).save(p, atom_format=style)
+                build(aj).save(p, atom_format=style)
                 tp = open(p).read()
                 s = io.StringIO()
-                core.atoms_from_json(aj).save(s, filetype="lmpdat", atom_format=style)
+                build(aj).save(s, filetype="lmpdat", atom_format=style)
                 bp = core.canon_atoms(Atoms.load(p, atom_format=style))
                 with open(p) as fh:
                     bf = core.canon_atoms(Atoms.load(fh, filetype="lmpdat", atom_format=style))
@@ -511,7 +558,8 @@ def rand_history(rng, aj):
     steps = []
     for k in range(rng.randint(2, 4)):
         e = {}
-        for what in rng.sample(["label", "label", "mass", "coeffs", "pair", "charge", "retype", "ints", "none"], rng.randint(1, 3)):
+        kinds_of_edit = ["label", "label", "mass", "coeffs", "pair", "charge", "ints", "none"] + (["retype"] if n and nt else [])
+        for what in rng.sample(kinds_of_edit, rng.randint(1, 3)):
             if what == "label":
                 e["label"] = ["%s%s%d" % (rng.choice(["L", "n_", "Q "]), chr(97 + k), i) for i in range(nt)]
                 e["label_how"] = rng.choice(["assign", "assign", "inplace", "one"])
@@ -529,9 +577,9 @@ def rand_history(rng, aj):
             elif what == "ints":                     # integer-typed arrays
                 e["ints"] = {"pos": [[rng.randint(-3, 14) for _ in range(3)] for _ in range(n)],
                              "mass": [rng.randint(1, 200) for _ in range(nt)]}
-        steps.append({"target": rng.choice(["self", "self", "self", "copy", "copy", "reload", "subset", "ase"]),
+        steps.append({"target": rng.choice(["self", "self", "self", "copy", "copy", "reload"] + (["subset", "ase"] if n else [])),
                       "via": rng.choice(["direct", "direct", "file", "path"]),
-                      "idx": rng.sample(range(n), rng.randint(1, n)), "edit": e})
+                      "idx": rng.sample(range(n), rng.randint(1, n)) if n else [], "edit": e})
     return steps
 
 
@@ -623,7 +671,7 @@ def oracle_history(aj, style, steps, tmpdir=None):
     from mofun import Atoms
     writes = []
     try:
-        a = core.atoms_from_json(aj)
+        a = build(aj)
         bad, cur, text = judge_write(a, style, "direct", tmpdir, "write 1")
         writes.append((cur, text))
         if bad:
@@ -675,6 +723,81 @@ def oracle_history(aj, style, steps, tmpdir=None):
     except Exception as e:  # noqa
         return "a write in the history raised %r" % (e,), writes
     return None, writes
+
+
+# ------------------------------------------------------------------------------------------ Masses lines in any order
+
+def shuffle_masses(text, perm):
+    """the same file with its Masses rows in the order `perm` (every row keeps its type id)"""
+    lines = text.split("\n")
+    at = lines.index("Masses") + 2
+    end = at
+    while end < len(lines) and lines[end].strip():
+        end += 1
+    rows = lines[at:end]
+    if sorted(perm) != list(range(len(rows))):
+        return None
+    return "\n".join(lines[:at] + [rows[k] for k in perm] + lines[end:])
+
+
+def oracle_shuffled(aj, style, perm):
+    """a Masses line binds its mass and label to ITS type id (LAMMPS read_data): the order of the lines means nothing.
+    Returns (None | what, shuffled text, real result on it)"""
+    sv = real_save(aj, style)
+    if "ok" not in sv:
+        return None, None, None
+    text = shuffle_masses(sv["ok"], perm)
+    if text is None:
+        return None, None, None
+    r0, r1 = real_load(sv["ok"], style), real_load(text, style)
+    if "ok" not in r1:
+        return "the file with its Masses lines in the order %s could not be read: %s" % ([k + 1 for k in perm], r1["err"]), text, r1
+    d = core.same(r0, r1)
+    if d:
+        return "Masses lines in the order %s give another structure than in ascending order: %s" % ([k + 1 for k in perm], d), text, r1
+    return None, text, r1
+
+
+# ------------------------------------------------------------------------------------------ structures from other readers
+
+def foreign_objects():
+    """structures that reach the writer through other public constructors: the repo's own CML / P1-CIF test files and
+    element-string / element-list constructor calls"""
+    import glob
+    out = []
+    root = os.path.join(core.REPO, "tests")
+    for f in sorted(glob.glob(os.path.join(root, "**", "*.cml"), recursive=True) + glob.glob(os.path.join(root, "**", "*.cif"), recursive=True)):
+        if os.path.getsize(f) < 60000:
+            out.append(("file", os.path.relpath(f, core.REPO)))
+    out += [("elements", "CHHHH"), ("elements", ["O", "H", "H", "Zr"]), ("elements", "C")]
+    return out
+
+
+def make_foreign(kind, arg):
+    import numpy as np
+    from mofun import Atoms
+    with core.quiet():
+        if kind == "file":
+            return Atoms.load(os.path.join(core.REPO, arg))
+        n = len(arg)
+        return Atoms(elements=arg, positions=[[i * 1.25, -0.5 * i, 0.125 * i * i] for i in range(n)],
+                     cell=np.array([[12.5, 0, 0], [-1.25, 11, 0], [0.5, 2.25, 9.75]]) if n > 1 else None)
+
+
+def oracle_foreign(kind, arg, style, tmpdir):
+    try:
+        o = make_foreign(kind, arg)
+    except Exception:  # noqa  (a file this reader does not accept, e.g. a non-P1 CIF: not this property)
+        return None
+    if o.cell is not None and not lammps_oriented(core.canon_atoms(o)["cell"]):
+        return None
+    try:
+        bad, _, _ = judge_write(o, style, "direct", tmpdir, "%s %s" % (kind, arg))
+        if not bad:
+            bad, _, _ = judge_write(o, style, "path", tmpdir, "%s %s via Atoms.save(path)" % (kind, arg))
+    except Exception as e:  # noqa
+        return "writing / re-reading %s %s raised %r" % (kind, arg, e)
+    return bad
 
 
 # ------------------------------------------------------------------------------------------ malformed files
@@ -869,8 +992,25 @@ def run(ctx, oracle_only=False):
                 ops.append({"op": "lmp_norm", "a": aj, "style": style, "elements": el})
                 impls.append(ld)
                 tols.append(None)
-                # --- tie: reader on a malformed variant of the file
-                if s % 2 == 0:
+                # --- Masses lines in any order: oracle (same structure) and tie
+                nt_ = len(aj["types"]["mass"])
+                if nt_ >= 2 and (s % 3 == 0 or nt_ >= 10):
+                    perm = list(range(nt_))
+                    while perm == list(range(nt_)):
+                        rng.shuffle(perm)
+                    sin = {"op": "lmp_shuffled", "a": aj, "style": style, "perm": perm}
+                    ctx.case(sin, nontrivial=True)
+                    ctx.count("shuffled-masses")
+                    sbad, stext, sres = oracle_shuffled(aj, style, perm)
+                    if sbad:
+                        ctx.fail(sbad, sin, observed=sres)
+                    elif stext is not None:
+                        ops.append({"op": "lmp_load", "lines": tokenize(stext), "style": style, "shuffled": True,
+                                    "elements": observed_guess(sres["ok"]["types"]["mass"])})
+                        impls.append(sres)
+                        tols.append(None)
+                # --- tie: reader on a malformed variant of the file (the edits need at least one Atoms row)
+                if s % 2 == 0 and aj["atoms"]:
                     kind, text = malform(rng, sv["ok"])
                     ctx.count("malformed:" + kind)
                     r = real_load(text, style)
@@ -878,6 +1018,15 @@ def run(ctx, oracle_only=False):
                     ops.append({"op": "lmp_load", "lines": tokenize(text), "style": style, "elements": el2, "malformed": kind})
                     impls.append(r)
                     tols.append("malformed")
+        # structures from the other readers / constructors
+        for kind, arg in foreign_objects():
+            for style in STYLES:
+                fin = {"op": "lmp_foreign", "kind": kind, "arg": arg, "style": style}
+                ctx.case(fin, nontrivial=True)
+                ctx.count("foreign:" + kind)
+                fbad = oracle_foreign(kind, arg, style, tmpdir)
+                if fbad:
+                    ctx.fail(fbad, fin)
         if oracle_only:
             return
         # dispatch table (finite: exhaustive)
@@ -916,6 +1065,10 @@ def replay(ctx, rec):
     try:
         if inp.get("op") == "lmp_history":
             bad, _ = oracle_history(inp["a"], inp["style"], inp["steps"], tmpdir)
+        elif inp.get("op") == "lmp_shuffled":
+            bad = oracle_shuffled(inp["a"], inp["style"], inp["perm"])[0]
+        elif inp.get("op") == "lmp_foreign":
+            bad = oracle_foreign(inp["kind"], inp["arg"], inp["style"], tmpdir)
         else:
             bad, _ = oracle_case(inp["a"], inp["style"], tmpdir)
     finally:
